@@ -1,5 +1,5 @@
 // Bounded stand-in for C11 (incremental results equal a batch run over the same prefix).
-#![allow(dead_code, unused_imports)]
+#![allow(dead_code, unused_imports, non_snake_case)]
 // Oracle (from the statement): lines are fed one at a time to one engine, exactly as FollowFileExecutor does
 // (ExecutionEngine::execute(line, &ExecutionConfig::default()), the returned table printed); after the k-th line the shown
 // table of an aggregate query equals the batch output over the first k lines (when the k-th line shows nothing, the table
@@ -8,38 +8,17 @@
 // non-admitted) x 7 aggregate statements (HAVING that a group can stop satisfying, DISTINCT, PERCENTILE) and 6 plain / DISTINCT statements, every prefix k.
 include!("verif_grid_common.rs");
 include!("verif_grid_qcommon.rs");
-use sqlgrep::execution::execution_engine::ExecutionConfig;
-use sqlgrep::executor::OutputPrinter;
 
-/// what follow mode prints for each fed line: (records, was a table shown)
-fn incremental(definition: &str, query: &str, lines: &[&str]) -> Result<Vec<Option<Vec<String>>>, String> {
-    let tables = tables(definition)?;
-    let statement = parsing::parse(query).map_err(|e| format!("{}", e))?;
-    let mut engine = ExecutionEngine::new(&tables, &statement);
-    let mut shown = Vec::new();
-    for line in lines {
-        let output = engine.execute(line.to_string(), &ExecutionConfig::default()).map_err(|e| format!("error at line {:?}: {}", line, e))?;
-        match output.result_row {
-            Some(row) => {
-                let mut printer = OutputPrinter::with_printer(Captured { lines: Vec::new() }, OutputFormat::Json);
-                printer.print(&row, true);
-                shown.push(Some(printer.printer().lines.clone()));
-            }
-            None => shown.push(None),
-        }
-    }
-    Ok(shown)
-}
-
-fn check(st: &str, aggregate: bool, input: &[&str]) -> Result<(), String> {
-    let inc = match incremental(T, st, input) { Ok(x) => x, Err(e) => {
+fn check(st: &str, aggregate: bool, input: &[&str]) -> Result<(), String> { check_in(T, st, aggregate, input) }
+fn check_in(def: &str, st: &str, aggregate: bool, input: &[&str]) -> Result<(), String> {
+    let inc = match incremental(def, st, input) { Ok(x) => x, Err(e) => {
         // (no statement of this grid has an error on these lines)
-        return Err(format!("{} fed line by line over {:?} fails: {}; the batch run gives {:?}", st, input, e, q(T, st, input)));
+        return Err(format!("{} fed line by line over {:?} fails: {}; the batch run gives {:?}", st, input, e, q(def, st, input)));
     } };
     let mut previous: Vec<String> = Vec::new();
     let mut displayed: Vec<String> = Vec::new();
     for k in 1..=input.len() {
-        let batch = match q(T, st, &input[..k]) { Outcome::Lines(l, _) => l, other => return Err(format!("{} over the first {} of {:?}: batch gives {:?} but follow mode went on", st, k, input, other)) };
+        let batch = match q(def, st, &input[..k]) { Outcome::Lines(l, _) => l, other => return Err(format!("{} over the first {} of {:?}: batch gives {:?} but follow mode went on", st, k, input, other)) };
         if aggregate {
             match &inc[k - 1] {
                 Some(table) => if *table != batch { return Err(format!("{} over {:?}: after line {} follow mode shows {:?}, a batch run over the first {} lines prints {:?}", st, input, k, table, k, batch)); },
@@ -79,6 +58,18 @@ fn verif_grid() {
             if base.len() >= 3 && (bi + si) % 3 != 0 { continue; }
             let (b1, st1) = (base.clone(), st.to_string());
             g.case(&format!("plain-b{}-s{}", bi, si), move || check(&st1, false, &b1));
+        }
+    }
+    // TEXT arguments that are NULL on the first lines of a group and arrive later
+    let def2 = "CREATE TABLE t(line = '^k=(\\\\w+)(?: s=(\\\\w+))?$', line[1] => k TEXT, line[2] => s TEXT);";
+    let pool2 = ["k=a", "k=a s=x", "k=a s=y", "k=b", "k=b s=x"];
+    let agg2 = ["SELECT k, COUNT(*) AS n, STRING_AGG(s, '+') AS joined FROM t GROUP BY k", "SELECT k, COUNT(*) AS n, MIN(s) AS lo, MAX(s) AS hi, COUNT(s) AS c FROM t GROUP BY k",
+                "SELECT COUNT(*) AS n, STRING_AGG(s, ',') AS all FROM t", "SELECT k, COUNT(*) AS n, ARRAY_AGG(k) AS ks, COUNT(DISTINCT s) AS d FROM t GROUP BY k"];
+    for (bi, base) in sequences(&pool2, 4).into_iter().enumerate() {
+        if base.is_empty() || (base.len() == 4 && bi % 3 != 0) { continue; }
+        for (si, st) in agg2.iter().enumerate() {
+            let b1 = base.clone();
+            g.case(&format!("text-aggregate-b{}-s{}", bi, si), move || check_in(def2, st, true, &b1));
         }
     }
     g.done();
